@@ -113,6 +113,86 @@ def product(V, M, texts, how):
             return "raised " + type(e).__name__
 
 
+def _inner_features(rng, spec, k):
+    """two features strictly inside the retained fragment of a generated plasmid (a simple one and a two-exon join, either
+    strand), in the coordinates of the record as stored - so a feature may straddle the record's origin, as a join or past the end"""
+    n = len(spec["seq"])
+    fs = (spec["built"]["frag_start_unrotated"] - spec["built"]["rot_left"]) % n
+    fl = spec["built"]["frag_len"]
+    lo, hi = fs + k + 1, fs + fl - 1           # one letter clear of both ends of the target body
+    feats = []
+    if hi - lo >= 2:
+        a = rng.randint(lo, hi - 1)
+        b = rng.randint(a + 1, hi)
+        feats.append([[a, b, rng.choice([1, -1])]])
+    if hi - lo >= 5:
+        c = sorted(rng.sample(range(lo, hi + 1), 4))
+        if c[1] < c[2]:
+            st = rng.choice([1, -1])
+            exons = [[c[0], c[1], st], [c[2], c[3], st]]
+            feats.append(exons if st == 1 else exons[::-1])
+    out = []
+    for j, parts in enumerate(feats):
+        parts = _embedded._split_wrapping(rng, gen.rotate_parts(parts, 0, n), n)
+        out.append({"type": "CDS", "parts": parts, "quals": {"uid": ["%s.inner%d" % (spec["id"], j)]}})
+    return out
+
+
+def _sense_texts(record):
+    """{uid: the nucleotides the feature denotes, read 5'->3' along its own strand} for the features carrying a uid"""
+    from ..denote import denote
+    from ..util import rc as _rc
+    text = str(record.seq).upper()
+    n = len(text)
+    comp = {"A": "T", "C": "G", "G": "C", "T": "A"}
+    out = {}
+    for f in record.features:
+        u = f.qualifiers.get("uid")
+        if not u or f.location is None:
+            continue
+        out.setdefault(u[0], []).append("".join(text[p] if st != -1 else comp[text[p]] for p, st in denote(f.location, n) if not isinstance(p, tuple)))
+    return {u: sorted(v) for u, v in out.items()}
+
+
+def annotated_products(ctx, V, M, amat):
+    """the assembly of annotated inputs and the assembly of their (library-made) reverse complements must carry the same
+    features: a feature's own 5'->3' reading does not depend on the strand the plasmid happens to be stored on"""
+    rng = gen.rng_for("c12-inner", amat["enzyme"], amat["vector"]["seq"][:24])
+    k = refmodel.geometry(gen.enzyme(amat["enzyme"]))[2]
+    specs = []
+    for sp in [amat["vector"]] + amat["modules"]:
+        sp = dict(sp)
+        sp["features"] = _inner_features(rng, sp, k)
+        sp.pop("refs", None)
+        specs.append(sp)
+    if not any(sp["features"] for sp in specs):
+        return
+    recs = [gen.make_record(sp) for sp in specs]
+    if rng.random() < 0.5:
+        # the plasmids are first rotated by the library so that the origin falls strictly inside an exon (or anywhere)
+        rot = []
+        for sp, r in zip(specs, recs):
+            n = len(r)
+            inner = [p for f in sp["features"] for a, b, _ in f["parts"] for p in range(a + 1, b)]
+            kk = (n - rng.choice(inner)) % n if inner and rng.random() < 0.8 else rng.randrange(n)
+            rot.append(r >> kk)
+        recs = rot
+        ctx.count("c12_annotated_inputs_rotated_by_library")
+    outs = []
+    for how in ("forward", "api"):
+        rs = recs if how == "forward" else [r.reverse_complement() >> rng.randrange(len(r)) for r in recs]
+        with warnings.catch_warnings():
+            warnings.simplefilter("ignore")
+            try:
+                outs.append(_sense_texts(V(rs[0]).assemble(*[M(r) for r in rs[1:]])))
+            except Exception as e:
+                outs.append("raised " + type(e).__name__)
+    ctx.count("c12_annotated_assembly_pairs")
+    if outs[0] != outs[1]:
+        ctx.violation("strand-asymmetric-features", "%s chain of %d: the product of the annotated inputs carries %s, the product of their reverse complements %s" % (
+            amat["enzyme"], len(specs) - 1, str(outs[0])[:200], str(outs[1])[:200]), enzyme=amat["enzyme"], specs=[{"seq": sp["seq"], "features": sp["features"]} for sp in specs])
+
+
 def execute(mat, ctx):
     if mat["kind"] == "asm":
         amat = _embedded.materialise_assembly(dict(mat, kind="assembly"))
@@ -132,6 +212,7 @@ def execute(mat, ctx):
             if rev != want:
                 ctx.violation("strand-asymmetric-assembly:%s" % how, "%s chain of %d: assembling the reverse complements gives %s, the reverse complement of the original product is %s" % (
                     amat["enzyme"], len(texts) - 1, rev[:60], want[:60]), enzyme=amat["enzyme"], texts=texts)
+        annotated_products(ctx, V, M, amat)
         ctx.sample({"kind": "assembly", "enzyme": amat["enzyme"], "vector": texts[0][:80], "modules": len(texts) - 1}, cap=2)
         return
     from moclo.core.vectors import AbstractVector
